@@ -59,6 +59,24 @@ theorem C09h_removeSignature_refines {sd : signature.SignatureDatabase} {t : uti
   rw [C09h_removeSignature]
   exact C09g_remove hdb hinv ht ho hd
 
+/-- the list-level wrappers likewise: `SignatureList.AppendSignature` / `RemoveSignature` are
+    `AppendBytes` / `RemoveBytes` of the entry's fields -/
+theorem C09h_list_appendSignature (E : Ext) (sl : signature.SignatureList) (s : signature.SignatureData) :
+    sl.AppendSignature E s = sl.AppendBytes E s.Owner s.Data := rfl
+
+theorem C09h_list_removeSignature (sl : signature.SignatureList) (s : signature.SignatureData) :
+    sl.RemoveSignature s = sl.RemoveBytes s.Owner s.Data := rfl
+
+/-- wrongly-sized SHA-256 / externally-managed data is refused through the wrapper as well, for every
+    database value, owner and `pem.Decode`, and the database is returned as it was (F37) -/
+theorem C09h_appendSignature_wrong_size (E : Ext) (sd : signature.SignatureDatabase) (t : util.EFIGUID)
+    (s : signature.SignatureData)
+    (h : (t = signature.CERT_SHA256_GUID ∧ s.Data.length ≠ 32) ∨
+         (t = signature.CERT_EXTERNAL_MANAGEMENT_GUID ∧ s.Data.length ≠ 1)) :
+    (sd.AppendSignature E t s).2.isSome = true ∧ (sd.AppendSignature E t s).1 = sd := by
+  rw [C09h_appendSignature]
+  exact C09g_append_wrong_size E sd t s.Owner s.Data h
+
 /-! ### `AppendDatabase` -/
 
 theorem appendDatabase_loop (s sd : signature.SignatureDatabase) :
@@ -224,3 +242,6 @@ end GoUefi.C09
 #print axioms GoUefi.C09.C09h_removeList_length
 #print axioms GoUefi.C09.C09h_removeList_inv
 #print axioms GoUefi.C09.C09h_appendList_removeList
+#print axioms GoUefi.C09.C09h_list_appendSignature
+#print axioms GoUefi.C09.C09h_list_removeSignature
+#print axioms GoUefi.C09.C09h_appendSignature_wrong_size
